@@ -445,6 +445,17 @@ def rule_pa_litorder(cx, rep, port):
         _literal_markers(rep, p, mod, ssl)
 
 
+def _star_model_verdict(cx, port):
+    from .hd import _star_model
+    p = cx.port(port)
+    mod = cx.engine_mod(port)
+    f1 = p.func(mod, 'replace_star_vars', required=False)
+    f2 = p.func(mod, 'replace_star_vars_for_ast' if port == 'py' else 'replace_star_vars_for_header_parsing', required=False)
+    if f1 is None or f2 is None:
+        return None
+    return _star_model(cx, port, p, mod, f1, f2)
+
+
 def _locate_model(cx, port):
     """locate_statements evaluated on eleven literal-free query texts: every clause keyword is found whatever its letter case, only as a
     whole word followed by a blank, multi-word keywords with any number of blanks between the words, the longest keyword of a group
@@ -1512,6 +1523,8 @@ def rule_pa_subst(cx, rep, port):
                 rep.holds('{}: replacement `{}`'.format(where, node_text(repl, 40)), c, 'constant template or function')
             elif tab_vals is not None and all(isinstance(v_, ast.Constant) and isinstance(v_.value, str) for v_ in tab_vals):
                 rep.holds('{}: replacement `{}`'.format(where, node_text(repl, 40)), c, 'one of {} constant templates of a constant table'.format(len(tab_vals)))
+            elif fd is not None and fd.name.startswith('replace_star_vars') and _star_model_verdict(cx, port) == '':
+                rep.holds('{}: replacement `{}`'.format(where, node_text(repl, 40)), c, 'what the star rewrite substitutes is decided by HD-STARTWIN (the function evaluated on select lists)')
             elif fd is not None and fd.name == 'separate_string_literals' and _literals_model(cx, port) == '':
                 rep.holds('{}: replacement `{}`'.format(where, node_text(repl, 40)), c, 'what the extraction substitutes is decided by PA-LITORDER (the function evaluated on query texts)')
             elif fd is None or not _expr_tainted(repl, _local_taint(fd, {a.arg for a in fd.args.args})):
